@@ -8,6 +8,7 @@ import time
 
 HERE = os.path.dirname(os.path.abspath(__file__))
 VERIF = os.path.dirname(HERE)
+OUT = os.environ.get("VERIF_OUT", VERIF)   # evidence/ and replays/ go here (scratch runs against a mutated copy use another dir)
 
 
 def log(*a):
@@ -124,7 +125,7 @@ def finish(prop, pc, tier, seed, results, kani_res, wall, update_baseline=False)
             continue
         violations.append(o)
 
-    os.makedirs(os.path.join(VERIF, "replays"), exist_ok=True)
+    os.makedirs(os.path.join(OUT, "replays"), exist_ok=True)
     vio_lines = []
     replay_mod = None
     for o in violations:
@@ -151,7 +152,7 @@ def finish(prop, pc, tier, seed, results, kani_res, wall, update_baseline=False)
                     rec["failing_inputs"].append({"probe": pr, "observed": obs})
                     found = True
         h = hashlib.sha256((o["id"] + json.dumps(rec["obligations"])).encode()).hexdigest()[:8]
-        rp = os.path.join(VERIF, "replays", "%s-%s-%s.json" % (prop, re.sub(r"[^\w.]+", "_", o["id"]), h))
+        rp = os.path.join(OUT, "replays", "%s-%s-%s.json" % (prop, re.sub(r"[^\w.]+", "_", o["id"]), h))
         json.dump(rec, open(rp, "w"), indent=1)
         vio_lines.append("VIOLATION property=%s replay=%s%s" % (prop, rp, "" if found else " no-failing-input-found"))
 
@@ -195,8 +196,8 @@ def finish(prop, pc, tier, seed, results, kani_res, wall, update_baseline=False)
         "wall_s": round(wall, 2),
         "violations": len(violations),
     }
-    os.makedirs(os.path.join(VERIF, "evidence"), exist_ok=True)
-    json.dump(ev, open(os.path.join(VERIF, "evidence", prop + ".json"), "w"), indent=1)
+    os.makedirs(os.path.join(OUT, "evidence"), exist_ok=True)
+    json.dump(ev, open(os.path.join(OUT, "evidence", prop + ".json"), "w"), indent=1)
 
     for ln in known_lines:
         print(ln)
